@@ -349,10 +349,28 @@ func (x windowReader) hold(id int) {
 	}
 }
 func (x windowReader) ReadTCP(c net.Conn, t time.Duration) ([]byte, error) {
+	fc := underFake(c)
 	if a, ok := c.RemoteAddr().(idAddr); ok {
 		x.hold(a.id)
 	}
-	return x.r.ReadTCP(c, t)
+	if fc == nil {
+		return x.r.ReadTCP(c, t)
+	}
+	fc.mu.Lock()
+	fc.rxArmed = true
+	fc.mu.Unlock()
+	m, err := x.r.ReadTCP(c, t)
+	fc.mu.Lock()
+	armed := fc.rxArmed
+	fc.rxArmed = false
+	fc.mu.Unlock()
+	if err != nil && armed {
+		// the read failed although the transport delivered everything it was asked for: the
+		// octets were no TLS record / the TLS handshake failed
+		x.w.log(fmt.Sprintf("rx.%d", fc.id))
+		st["reads_failed_above_the_transport"]++
+	}
+	return m, err
 }
 func (x windowReader) ReadUDP(c *net.UDPConn, t time.Duration) ([]byte, *dns.SessionUDP, error) {
 	return x.r.ReadUDP(c, t)
@@ -537,6 +555,20 @@ func (w *world) waitFor(e string, n int) bool {
 	}
 	return true
 }
+// softWait: wait until event e has been logged, at most for d; never a verdict
+func (w *world) softWait(e string, d time.Duration) {
+	end := time.Now().Add(d)
+	for time.Now().Before(end) {
+		w.mu.Lock()
+		n := w.countRet(e)
+		w.mu.Unlock()
+		if n > 0 {
+			return
+		}
+		time.Sleep(200 * time.Microsecond)
+	}
+	st["soft_waits_expired"]++
+}
 func (w *world) events() []string {
 	w.mu.Lock()
 	defer w.mu.Unlock()
@@ -705,8 +737,8 @@ type fakeConn struct {
 	id      int
 	mu      sync.Mutex
 	cond    *sync.Cond
-	in      []byte // octets the client has sent and the server has not read
-	msgEnd  []int  // remaining lengths: in is a sequence of framed messages; msgEnd[0] = octets left of the current one
+	in      []byte  // octets the client has sent and the server has not read
+	chunks  []chunk // in is a sequence of chunks (one per client write); chunks[0].left = octets left of the current one
 	dlPast  bool
 	sawPast bool // a deadline in the past has been set (Shutdown reached this connection)
 	eof     bool // client closed its side
@@ -721,10 +753,53 @@ type fakeConn struct {
 	touchedInHandler []string // ... between Hijack() and the return of the hijacking handler
 	ownerReads       []string // results of the owner's reads
 	ownerPending     int
+
+	// the client's side of the connection (raw clients and real TLS clients)
+	sent, consumed int        // chunks the client has written / the server has read completely
+	rxArmed        bool       // a ReadTCP call of the server is running: its first failing Read is the event rx
+	outRead        int        // entries of out the client has read completely
+	outOff         int        // ... and octets of the next one
+	clientGone     bool       // the harness has ended the client (its reads fail from now on)
+	staging        bool       // client writes are collected and handed to the server as ONE chunk (a query)
+	staged         []byte
+	dropAfter      int        // > 0: the client's transport swallows every write after this many (a client that stalls in the handshake)
+	clientWrites   int
+	tls            *tlsClient // TLS client on this connection, if any
+}
+
+// chunk: what one write of the client put on the wire.  rq: it is (the last part of) a complete
+// DNS message: when the server has read it completely the request has been read (event rq).
+type chunk struct {
+	left int
+	rq   bool
+}
+
+func (c *fakeConn) pushLocked(b []byte, rq bool) {
+	if len(b) == 0 {
+		return
+	}
+	c.in = append(c.in, b...)
+	c.chunks = append(c.chunks, chunk{len(b), rq})
+	c.sent++
+	c.cond.Broadcast()
 }
 
 // wrapConn: what a TLS-style listener hands to the server: a wrapper around the connection
 type wrapConn struct{ net.Conn }
+
+// capLis: around the real crypto/tls listener; remembers which *tls.Conn the server was handed for
+// which fake connection (srv.conns is keyed by it)
+type capLis struct{ net.Listener }
+
+func (l capLis) Accept() (net.Conn, error) {
+	c, err := l.Listener.Accept()
+	if fc := underFake(c); fc != nil && err == nil {
+		fc.mu.Lock()
+		fc.asServer = c
+		fc.mu.Unlock()
+	}
+	return c, err
+}
 
 // touch: the server (not the owner) calls a net.Conn method.  Once a handler has hijacked the
 // connection, has returned and the server has deregistered it (owned), the server has no business
@@ -751,7 +826,8 @@ func (c *fakeConn) ownerRead() string {
 		case c.dlPast:
 			return "timeout"
 		case len(c.in) > 0:
-			c.in, c.msgEnd = nil, nil
+			c.consumed += len(c.chunks)
+			c.in, c.chunks = nil, nil
 			return "data"
 		case c.eof:
 			return "eof"
@@ -776,9 +852,7 @@ func (c *fakeConn) ownerClose() {
 }
 func (c *fakeConn) sendRaw() {
 	c.mu.Lock()
-	c.in = append(c.in, 'o', 'k')
-	c.msgEnd = append(c.msgEnd, 2)
-	c.cond.Broadcast()
+	c.pushLocked([]byte{'o', 'k'}, true)
 	c.mu.Unlock()
 }
 
@@ -793,9 +867,7 @@ func (w *world) newConn(id int) *fakeConn {
 func (c *fakeConn) Send(m []byte) {
 	c.mu.Lock()
 	f := append([]byte{byte(len(m) >> 8), byte(len(m))}, m...)
-	c.in = append(c.in, f...)
-	c.msgEnd = append(c.msgEnd, len(f))
-	c.cond.Broadcast()
+	c.pushLocked(f, true)
 	c.mu.Unlock()
 }
 func (c *fakeConn) CloseClient() {
@@ -813,33 +885,48 @@ func (c *fakeConn) Read(p []byte) (int, error) {
 			return 0, net.ErrClosed
 		}
 		if c.dlPast {
-			c.w.log(fmt.Sprintf("rx.%d", c.id))
+			c.rxLocked()
 			return 0, tmpErr{timeout: true}
 		}
 		if len(c.in) > 0 {
 			n := len(p)
-			if n > c.msgEnd[0] {
-				n = c.msgEnd[0]
+			if n > c.chunks[0].left {
+				n = c.chunks[0].left
 			}
 			copy(p, c.in[:n])
 			c.in = c.in[n:]
-			c.msgEnd[0] -= n
-			if c.msgEnd[0] == 0 {
-				c.msgEnd = c.msgEnd[1:]
-				c.w.log(fmt.Sprintf("rq.%d", c.id)) // the whole request has been read
-				c.mu.Unlock()
-				c.w.holdAt(fmt.Sprintf("rd.%d", c.id), false, c.w.shutdownSeen)
-				c.mu.Lock()
+			c.chunks[0].left -= n
+			if c.chunks[0].left == 0 {
+				rq := c.chunks[0].rq
+				c.chunks = c.chunks[1:]
+				c.consumed++
+				c.cond.Broadcast()
+				if rq {
+					c.w.log(fmt.Sprintf("rq.%d", c.id)) // the whole request has been read
+					c.mu.Unlock()
+					c.w.holdAt(fmt.Sprintf("rd.%d", c.id), false, c.w.shutdownSeen)
+					c.mu.Lock()
+				}
 			}
 			return n, nil
 		}
 		if c.eof {
-			c.w.log(fmt.Sprintf("rx.%d", c.id))
-			return 0, fmt.Errorf("EOF")
+			c.rxLocked()
+			return 0, io.EOF
 		}
 		c.cond.Wait()
 	}
 }
+// rxLocked: a read of the server on this connection fails (deadline in the past, client gone): the
+// event rx, once per ReadTCP call of the server (the reader wrapper arms it; a read that fails
+// above this transport - a TLS record that is none, a failed handshake - is logged by the wrapper)
+func (c *fakeConn) rxLocked() {
+	if c.rxArmed {
+		c.rxArmed = false
+		c.w.log(fmt.Sprintf("rx.%d", c.id))
+	}
+}
+
 func (c *fakeConn) Write(p []byte) (int, error) {
 	c.touch("Write")
 	c.mu.Lock()
@@ -848,9 +935,24 @@ func (c *fakeConn) Write(p []byte) (int, error) {
 		return 0, net.ErrClosed
 	}
 	c.out = append(c.out, append([]byte(nil), p...))
+	c.cond.Broadcast()
 	c.mu.Unlock()
-	c.w.log(fmt.Sprintf("rp.%d", c.id))
+	if c.w.takeReply(c.id) {
+		c.w.log(fmt.Sprintf("rp.%d", c.id))
+	}
 	return len(p), nil
+}
+
+// takeReply: is this write the reply of the handler of id (the handler is inside WriteMsg)?
+func (w *world) takeReply(id int) bool {
+	w.mu.Lock()
+	defer w.mu.Unlock()
+	if w.replying[id] > 0 {
+		w.replying[id]--
+		return true
+	}
+	w.serverWrites++
+	return false
 }
 func (c *fakeConn) Close() error {
 	c.touch("Close")
@@ -892,6 +994,231 @@ func (c *fakeConn) SetReadDeadline(t time.Time) error {
 	return nil
 }
 func (c *fakeConn) SetWriteDeadline(t time.Time) error { c.touch("SetWriteDeadline"); return nil }
+
+// underFake: the fake connection under what the server was handed by Accept
+func underFake(c net.Conn) *fakeConn {
+	switch x := c.(type) {
+	case *fakeConn:
+		return x
+	case *wrapConn:
+		return underFake(x.Conn)
+	case *tls.Conn:
+		return underFake(x.NetConn())
+	}
+	return nil
+}
+
+// ---------------------------------------------------------------- the client's end of a fake connection
+// clientEnd is the net.Conn a client program (a real crypto/tls client) runs over: its writes are
+// what the server reads, one chunk per write; its reads get what the server wrote.
+type clientEnd struct{ c *fakeConn }
+
+func (e clientEnd) Read(p []byte) (int, error) {
+	c := e.c
+	c.mu.Lock()
+	defer c.mu.Unlock()
+	for {
+		if c.outRead < len(c.out) {
+			n := copy(p, c.out[c.outRead][c.outOff:])
+			c.outOff += n
+			if c.outOff == len(c.out[c.outRead]) {
+				c.outRead, c.outOff = c.outRead+1, 0
+			}
+			return n, nil
+		}
+		if c.closed || c.clientGone {
+			return 0, io.EOF
+		}
+		c.cond.Wait()
+	}
+}
+func (e clientEnd) Write(p []byte) (int, error) {
+	c := e.c
+	c.mu.Lock()
+	defer c.mu.Unlock()
+	if c.eof || c.clientGone {
+		return 0, net.ErrClosed
+	}
+	c.clientWrites++
+	switch {
+	case c.dropAfter > 0 && c.clientWrites > c.dropAfter:
+		// swallowed: the client never gets through the handshake
+	case c.staging:
+		c.staged = append(c.staged, p...)
+	default:
+		c.pushLocked(p, false)
+	}
+	return len(p), nil
+}
+func (e clientEnd) Close() error                       { e.c.CloseClient(); return nil }
+func (e clientEnd) LocalAddr() net.Addr                { return idAddr{e.c.id} }
+func (e clientEnd) RemoteAddr() net.Addr               { return idAddr{0} }
+func (e clientEnd) SetDeadline(t time.Time) error      { return nil }
+func (e clientEnd) SetReadDeadline(t time.Time) error  { return nil }
+func (e clientEnd) SetWriteDeadline(t time.Time) error { return nil }
+
+// endClient: the harness ends the client of this connection (its pending and later reads fail)
+func (c *fakeConn) endClient() {
+	c.mu.Lock()
+	c.clientGone = true
+	c.cond.Broadcast()
+	c.mu.Unlock()
+}
+
+// tlsClient: a real crypto/tls client on a fake connection.  Its goroutine runs the handshake and
+// then reads DNS messages until the connection ends.
+type tlsClient struct {
+	tc      *tls.Conn
+	hsDone  chan struct{}
+	hsErr   error
+	done    chan struct{}
+	sendMu  sync.Mutex
+	replies int // DNS messages received (under the connection's mutex)
+}
+
+// client variants (op c<c>.<v>): 0 a raw client that has not written anything; 1 a TLS client whose
+// transport swallows everything after its first flight (it stalls in the handshake); 2 a TLS client
+// that only speaks TLS 1.0 (the server refuses); 3 a TLS client that verifies the server certificate
+// (the client refuses: the certificate is self-signed)
+func (w *world) startTLSClient(fc *fakeConn, variant int) {
+	cfg := &tls.Config{InsecureSkipVerify: true}
+	switch variant {
+	case 1:
+		fc.dropAfter = 1
+	case 2:
+		cfg.MinVersion, cfg.MaxVersion = tls.VersionTLS10, tls.VersionTLS10
+	case 3:
+		cfg = &tls.Config{ServerName: "verif.invalid"}
+	}
+	cl := &tlsClient{tc: tls.Client(clientEnd{fc}, cfg), hsDone: make(chan struct{}), done: make(chan struct{})}
+	fc.tls = cl
+	w.cw.Add(1)
+	go func() {
+		defer w.cw.Done()
+		defer close(cl.done)
+		cl.hsErr = cl.tc.Handshake()
+		close(cl.hsDone)
+		if cl.hsErr != nil {
+			return // (the client does not close: the server has to get rid of the connection by itself)
+		}
+		for {
+			var l [2]byte
+			if _, err := io.ReadFull(cl.tc, l[:]); err != nil {
+				return
+			}
+			if _, err := io.ReadFull(cl.tc, make([]byte, int(l[0])<<8|int(l[1]))); err != nil {
+				return
+			}
+			fc.mu.Lock()
+			cl.replies++
+			fc.mu.Unlock()
+		}
+	}()
+}
+
+// clientSend: the client of connection c sends one framed DNS message.  Plain TCP: at once.  TLS:
+// by a goroutine that waits for the client's handshake; the TLS record(s) of the message reach the
+// server as one chunk, so that "the request has been read" (rq) is the moment the server's
+// transport read takes the last octet of it - exactly as on a plain connection.
+func (w *world) clientSend(fc *fakeConn, m []byte) {
+	if fc.tls == nil {
+		fc.Send(m)
+		return
+	}
+	cl := fc.tls
+	w.cw.Add(1)
+	go func() {
+		defer w.cw.Done()
+		<-cl.hsDone
+		if cl.hsErr != nil {
+			st["tls_client_sends_without_a_session"]++
+			return
+		}
+		cl.sendMu.Lock()
+		defer cl.sendMu.Unlock()
+		fc.mu.Lock()
+		fc.staging = true
+		fc.mu.Unlock()
+		cl.tc.Write(append([]byte{byte(len(m) >> 8), byte(len(m))}, m...))
+		fc.mu.Lock()
+		fc.staging = false
+		fc.pushLocked(fc.staged, true)
+		fc.staged = nil
+		fc.mu.Unlock()
+	}()
+}
+
+func (w *world) endAllClients() {
+	w.mu.Lock()
+	var fcs []*fakeConn
+	for _, fc := range w.conns {
+		fcs = append(fcs, fc)
+	}
+	w.mu.Unlock()
+	for _, fc := range fcs {
+		fc.endClient()
+	}
+}
+
+// clientsWrapUp: every start / Shutdown call of this life has returned.  Clients whose connection
+// the server has closed end by themselves (and must have received every reply a handler wrote on
+// it); the others are ended by the harness.
+func (w *world) clientsWrapUp() {
+	w.mu.Lock()
+	var fcs []*fakeConn
+	for _, fc := range w.conns {
+		fcs = append(fcs, fc)
+	}
+	ev := append([]string(nil), w.ev...)
+	w.mu.Unlock()
+	sort.Slice(fcs, func(i, j int) bool { return fcs[i].id < fcs[j].id })
+	for _, fc := range fcs {
+		if fc.tls == nil {
+			continue
+		}
+		fc.mu.Lock()
+		closed := fc.closed
+		fc.mu.Unlock()
+		natural := closed
+		if !closed {
+			fc.endClient()
+		}
+		select {
+		case <-fc.tls.done:
+		case <-time.After(waitLong):
+			natural = false
+			fc.endClient()
+			<-fc.tls.done
+		}
+		if natural && fc.tls.hsErr == nil {
+			nrp := 0
+			for _, e := range ev {
+				if e == fmt.Sprintf("rp.%d", fc.id) {
+					nrp++
+				}
+			}
+			fc.mu.Lock()
+			got := fc.tls.replies
+			fc.mu.Unlock()
+			st["tls_client_reply_delivery_checked"]++
+			if got < nrp {
+				w.addViol("C13/reply-not-delivered", fmt.Sprintf("handlers wrote %d replies on TLS connection %d, its client received %d before the server closed the connection", nrp, fc.id, got))
+			}
+		}
+	}
+	for _, fc := range fcs {
+		fc.endClient() // (senders still waiting)
+	}
+	done := make(chan struct{})
+	go func() { w.cw.Wait(); close(done) }()
+	select {
+	case <-done:
+	case <-time.After(waitLong):
+		if w.stuck == "" {
+			w.stuck = "a client goroutine of the harness did not end"
+		}
+	}
+}
 
 // ---------------------------------------------------------------- fake PacketConn (generic, not *net.UDPConn)
 type pkt struct {
@@ -941,7 +1268,12 @@ func (p *fakePC) ReadFrom(b []byte) (int, net.Addr, error) {
 			x := p.q[0]
 			p.q = p.q[1:]
 			n := copy(b, x.b)
-			p.w.log(fmt.Sprintf("pk.%d", x.id))
+			if len(x.b) < 12 {
+				// shorter than a DNS header: nothing the server may create a worker for
+				p.w.log(fmt.Sprintf("ps.%d", x.id))
+			} else {
+				p.w.log(fmt.Sprintf("pk.%d", x.id))
+			}
 			p.mu.Unlock()
 			p.w.holdAt(fmt.Sprintf("rd.%d", x.id), false, p.seenPast)
 			p.mu.Lock()
@@ -965,7 +1297,9 @@ func (p *fakePC) WriteTo(b []byte, a net.Addr) (int, error) {
 	}
 	p.out[id]++
 	p.mu.Unlock()
-	p.w.log(fmt.Sprintf("rp.%d", id))
+	if p.w.takeReply(id) {
+		p.w.log(fmt.Sprintf("rp.%d", id))
+	}
 	return len(b), nil
 }
 func (p *fakePC) Deliver(id int, b []byte) {
@@ -1332,13 +1666,168 @@ func (w *world) cancel(j int) {
 		c()
 	}
 }
-func (w *world) connect(c int, wait bool) {
+// connect: client c connects.  variant -1: an ordinary client (on a TLS listener: a TLS client that
+// accepts the certificate); 0: a raw client (no TLS, nothing written yet); 1..3: see startTLSClient
+// (on a plain listener these are raw clients too).
+func (w *world) connect(c int, wait bool, variant int) {
 	fc := w.newConn(c)
+	if w.tlsMode && variant != 0 {
+		w.startTLSClient(fc, variant)
+	}
 	w.lis.queue <- fc
 	if wait {
 		w.waitFor(fmt.Sprintf("ao.%d", c), 1)
 	}
 }
+
+// junk: what a client that does not speak the protocol of the port writes
+var junkKinds = [][]byte{
+	[]byte("not-a-tls-hi"),                                       // 0: on a TLS port no record; on a plain port a length prefix and a partial message
+	{0x16, 0x03, 0x01},                                           // 1: fewer octets than a TLS record header / than a length prefix and its message
+	[]byte("GET / HTTP/1.1\r\nHost: dns.example\r\nAccept: */*\r\n\r\n"), // 2: another protocol
+	{0x16, 0x03, 0x01, 0xff, 0xff},                               // 3: a record header announcing more than a record may hold
+	{0x16, 0x03, 0x03, 0x00, 0x64, 0x01, 0x00, 0x00, 0x60, 0x03}, // 4: the beginning of a handshake record, the rest never comes
+}
+
+// sendJunk: the client of connection c writes raw octets (not through its TLS session, if it has
+// one); waits until the server has read them unless the lock region of Shutdown has already run
+func (w *world) sendJunk(c, kind int, wait bool) {
+	w.mu.Lock()
+	fc := w.conns[c]
+	w.mu.Unlock()
+	if fc == nil {
+		return
+	}
+	if fc.tls != nil {
+		// after the handshake (otherwise the octets would only be one more handshake failure)
+		select {
+		case <-fc.tls.hsDone:
+		case <-time.After(waitLong):
+			if w.stuck == "" {
+				w.stuck = fmt.Sprintf("the TLS handshake of client %d did not end", c)
+			}
+			return
+		}
+	}
+	fc.mu.Lock()
+	fc.pushLocked(junkKinds[kind%len(junkKinds)], false)
+	target := fc.sent
+	fc.mu.Unlock()
+	st["junk_writes"]++
+	if !wait {
+		return
+	}
+	d := time.Now().Add(waitLong)
+	for {
+		fc.mu.Lock()
+		ok := fc.consumed >= target || fc.closed
+		fc.mu.Unlock()
+		if ok {
+			return
+		}
+		if time.Now().After(d) {
+			if w.stuck == "" {
+				w.stuck = fmt.Sprintf("the server did not read what client %d wrote", c)
+			}
+			return
+		}
+		time.Sleep(200 * time.Microsecond)
+	}
+}
+
+// ---- messages that must not reach a handler
+const nBadKinds = 11
+
+// badMsg: kinds 0..3 have no complete header (udp: short datagrams); 4 is a response; 5 and 10 are
+// accepted by MsgAcceptFunc but do not unpack (FORMERR); 6 has an opcode the server does not
+// implement (NOTIMP); 7 has two questions (FORMERR); 8 / 9 are well-formed queries the user's
+// MsgAcceptFunc ignores / rejects.  Every message of two or more octets carries id.
+func badMsg(id, kind int) (m []byte, override dns.MsgAcceptAction, hasOverride bool) {
+	hdr := func(bits uint16, qd uint16) []byte {
+		return []byte{byte(id >> 8), byte(id), byte(bits >> 8), byte(bits), byte(qd >> 8), byte(qd), 0, 0, 0, 0, 0, 0}
+	}
+	q := []byte{1, 'q', 7, 'e', 'x', 'a', 'm', 'p', 'l', 'e', 0, 0, 1, 0, 1}
+	switch kind % nBadKinds {
+	case 0:
+		return []byte{}, 0, false
+	case 1:
+		return []byte{0x55}, 0, false
+	case 2:
+		return hdr(0, 0)[:2], 0, false
+	case 3:
+		return hdr(0x0100, 1)[:11], 0, false
+	case 4:
+		return append(hdr(0x8180, 1), q...), 0, false
+	case 5:
+		return hdr(0x0100, 1), 0, false
+	case 6:
+		return append(hdr(3<<11, 1), q...), 0, false
+	case 7:
+		return append(append(hdr(0x0100, 2), q...), q...), 0, false
+	case 8:
+		return append(hdr(0x0100, 1), q...), dns.MsgIgnore, true
+	case 9:
+		return append(hdr(0x0100, 1), q...), dns.MsgReject, true
+	default:
+		return append(hdr(0x0100, 1), 0xc0, 0x0c, 0, 1, 0, 1), 0, false // a compression pointer to itself
+	}
+}
+
+// sendBad: connection c (tcp) / the client with address c (udp) sends a message of the given kind.
+// wait: until the server has decided not to call a handler for it (ig.<c>; a short datagram: until
+// it was read, ps.<c>, and MsgInvalidFunc was called).
+func (w *world) sendBad(c, kind int, wait bool) {
+	m, ov, has := badMsg(c, kind)
+	w.mu.Lock()
+	if has {
+		w.acceptOverride[c] = ov
+	}
+	fc := w.conns[c]
+	inv := w.invalidCalls
+	if len(m) < 2 {
+		w.tinyOwner = c
+	}
+	w.badSent[c]++
+	nth := w.badSent[c]
+	w.mu.Unlock()
+	st[fmt.Sprintf("bad_messages_kind_%d", kind%nBadKinds)]++
+	if w.mode == "tcp" {
+		if fc == nil {
+			return
+		}
+		w.clientSend(fc, m)
+		if wait {
+			w.waitFor(fmt.Sprintf("ig.%d", c), nth)
+		}
+		return
+	}
+	w.pc.Deliver(c, m)
+	if !wait {
+		return
+	}
+	if len(m) >= 12 {
+		w.waitFor(fmt.Sprintf("ig.%d", c), 1)
+		return
+	}
+	w.waitFor(fmt.Sprintf("ps.%d", c), 1)
+	d := time.Now().Add(waitLong)
+	for {
+		w.mu.Lock()
+		ok := w.invalidCalls > inv
+		w.mu.Unlock()
+		if ok {
+			return
+		}
+		if time.Now().After(d) {
+			if w.stuck == "" {
+				w.stuck = fmt.Sprintf("the server read the short datagram %d and did not go on", c)
+			}
+			return
+		}
+		time.Sleep(200 * time.Microsecond)
+	}
+}
+
 func (w *world) request(c int, nth int, wait bool) {
 	if w.mode == "tcp" {
 		w.mu.Lock()
@@ -1347,7 +1836,7 @@ func (w *world) request(c int, nth int, wait bool) {
 		if fc == nil {
 			return
 		}
-		fc.Send(query(c))
+		w.clientSend(fc, query(c))
 	} else {
 		w.pc.Deliver(c, query(c))
 	}
@@ -1504,7 +1993,10 @@ func (w *world) judgeLife(name string, plan []string, fatalInjected bool, life, 
 // settle: all harness goroutines returned and the goroutine count is back at the baseline
 func (w *world) settle(name string, base int, plan []string) {
 	if w.callersReturned() {
-		w.goroutinesBack(name, base, plan)
+		w.clientsWrapUp()
+		if w.stuck == "" {
+			w.goroutinesBack(name, base, plan)
+		}
 	}
 }
 func (w *world) callersReturned() bool {
@@ -1577,8 +2069,10 @@ func runPlan(mode, name string, plan []string, attempt int) bool {
 		if w.stuck != "" || w.abort {
 			break
 		}
-		var a int
-		fmt.Sscanf(op[1:], "%d", &a)
+		var a, a2 int
+		if n, _ := fmt.Sscanf(op[1:], "%d.%d", &a, &a2); n < 2 {
+			a2 = 0
+		}
 		switch op[0] {
 		case 'S':
 			w.start(a)
@@ -1640,8 +2134,27 @@ func runPlan(mode, name string, plan []string, attempt int) bool {
 			}
 		case 'C':
 			if mode == "tcp" {
-				w.connect(a, !shut)
+				w.connect(a, !shut, -1)
 			}
+		case 'c':
+			if mode == "tcp" {
+				w.connect(a, !shut, a2)
+			}
+		case 'x':
+			if mode == "tcp" {
+				w.sendJunk(a, a2, !shut)
+			}
+		case 'B', 'b':
+			w.sendBad(a, a2, op[0] == 'B' && !shut)
+		case 'M':
+			// a real crypto/tls listener over the fake one
+			if mode == "tcp" && serverTLS() != nil {
+				w.tlsMode = true
+				w.srv.Listener = capLis{tls.NewListener(w.lis, serverTLS())}
+			}
+		case 'w':
+			// wait for an event, at most 2 s, no verdict either way (the property does not say when)
+			w.softWait(op[1:], 2*time.Second)
 		case 'Q', 'q':
 			reqCount[a]++
 			wait := op[0] == 'Q' && !shut
@@ -1714,6 +2227,9 @@ func runPlan(mode, name string, plan []string, attempt int) bool {
 			}
 		case 'X':
 			if fc := w.conns[a]; fc != nil {
+				if fc.tls != nil {
+					fc.tls.tc.Close() // (close_notify if the session is up, then the transport)
+				}
 				fc.CloseClient()
 			}
 		case 'D', 'K':
@@ -1838,6 +2354,7 @@ func runPlan(mode, name string, plan []string, attempt int) bool {
 			st["scenario_retries"]++
 			fmt.Fprintln(os.Stderr, "C13 scenario", name, "stuck:", w.stuck, "- retrying")
 			// unblock whatever is left
+			w.endAllClients()
 			if w.lis != nil {
 				w.lis.Close()
 			}
@@ -1847,6 +2364,7 @@ func runPlan(mode, name string, plan []string, attempt int) bool {
 			return runPlan(mode, name, plan, 1)
 		}
 		stuckConfirmed++
+		w.endAllClients()
 		Viol("C13/stuck", "scenario stuck twice: "+w.stuck, map[string]any{"scenario": name, "mode": mode, "plan": plan, "events": w.events()})
 		return false
 	}
@@ -2461,7 +2979,7 @@ func restartWhileDraining(mode string, keepOpen bool) {
 	w.start(0)
 	w.waitFor("n", 1)
 	if mode == "tcp" {
-		w.connect(1, true)
+		w.connect(1, true, -1)
 		w.mu.Lock()
 		c1 = w.conns[1]
 		w.mu.Unlock()
@@ -2500,7 +3018,7 @@ func restartWhileDraining(mode string, keepOpen bool) {
 		time.Sleep(200 * time.Microsecond)
 	}
 	if mode == "tcp" {
-		w.connect(2, true)
+		w.connect(2, true, -1)
 	}
 	w.request(2, 1, true)
 	w.release(1)
